@@ -33,6 +33,10 @@ fn scenarios(thorough: bool) -> Vec<(&'static str, Vec<u8>)> {
         ("AAA", vec![10, 10, 10]),
         ("BAB", vec![20, 10, 20]),
     ];
+    // Addresses >= 100 mark connections whose set-up fails (a keepalive
+    // time the kernel rejects): they must leave no trace in the counts.
+    res.push(("AfA", vec![10, 110, 10]));
+    res.push(("fB", vec![120, 20]));
     if thorough {
         res.push(("ACB", vec![10, 30, 20]));
         res.push(("BCA", vec![20, 30, 10]));
@@ -77,14 +81,21 @@ fn body(sched: &Arc<Sched>, addrs: &[u8], pre: bool) -> (Execution, Verdict) {
     for (i, a) in addrs.iter().enumerate() {
         let metrics = metrics.clone();
         let errors = errors.clone();
-        let addr = ip(*a);
+        let fails = *a >= 100;
+        let addr = ip(*a % 100);
         sched.spawn(&format!("c{i}"), move || {
             let _g = runtime().enter();
             let (_client, server) = socket_pair();
+            let keepalive = fails.then(|| std::time::Duration::from_secs(40000));
             let conn = match VerifConnection::new(
-                server, SocketAddr::new(addr, 4000 + i as u16), None, &metrics
+                server, SocketAddr::new(addr, 4000 + i as u16), keepalive, &metrics
             ) {
+                Ok(_) if fails => {
+                    errors.lock().unwrap().push("harness: set-up with an invalid keepalive time succeeded".into());
+                    return
+                }
                 Ok(conn) => conn,
+                Err(_) if fails => return,
                 Err(err) => {
                     errors.lock().unwrap().push(format!("setup failed: {err}"));
                     return
@@ -126,10 +137,12 @@ fn body(sched: &Arc<Sched>, addrs: &[u8], pre: bool) -> (Execution, Verdict) {
         match check_list(&metrics) {
             Err(e) => errs.push(e),
             Ok(list) => {
-                let mut want: Vec<IpAddr> = addrs.iter().map(|a| ip(*a)).collect();
+                let mut want: Vec<IpAddr> = addrs.iter().filter(|a| **a < 100).map(|a| ip(*a)).collect();
                 if pre { want.push(ip(10)) }
                 want.sort(); want.dedup();
-                let have: Vec<IpAddr> = list.iter().map(|x| x.0).collect();
+                // an address whose only connections failed may or may not be listed
+                let optional: Vec<IpAddr> = addrs.iter().filter(|a| **a >= 100).map(|a| ip(*a % 100)).collect();
+                let have: Vec<IpAddr> = list.iter().map(|x| x.0).filter(|a| want.contains(a) || !optional.contains(a)).collect();
                 if have != want {
                     errs.push(format!("final client list {have:?}, expected {want:?}"));
                 }
